@@ -221,7 +221,7 @@ func init() {
 			e := getEnv(cfg, "basic")
 			hs := c03ChainHeaders
 			var n int64
-			for _, m := range []string{"GET", "HEAD", "POST", "PUT", "PATCH", "DELETE", "OPTIONS"} {
+			for _, m := range []string{"GET", "HEAD", "POST", "PUT", "PATCH", "DELETE", "OPTIONS", "TRACE"} {
 				for _, code := range []int{200, 201, 204, 301, 404, 500, 503} {
 					for hi, k := range hs {
 						n++
@@ -351,7 +351,7 @@ func init() {
 				"refused": &net.OpError{Op: "dial", Net: "tcp", Err: os.NewSyscallError("connect", syscall.ECONNREFUSED)},
 			}
 			var n int64
-			for _, m := range []string{"GET", "HEAD", "POST", "PUT", "PATCH", "DELETE", "OPTIONS"} {
+			for _, m := range []string{"GET", "HEAD", "POST", "PUT", "PATCH", "DELETE", "OPTIONS", "TRACE"} {
 				for _, en := range []string{"EOF", "reset", "refused"} {
 					for _, body := range [][]byte{nil, []byte("x=1")} {
 						n++
